@@ -1,14 +1,15 @@
 """Shared configuration of the RPC properties C06, C07, C08: one model (coq/Rpc), one harness
 (harness/cmd/c06), one driver (ocaml/rpc_driver.ml).  Each property selects the streams it
 needs and judges disagreements against its own predicate."""
+import os
 import re
 
 COQ_COMMON = ["Extract/ExtractRpc.vo", "Rpc/RpcRefuted.vo"]
 
 
-def run(name, kinds):
+def run(name, kinds, salt=0):
     return dict(name=name, harness="c06", driver="rpc", model_ml="rpc_model",
-                harness_args=["-kinds", kinds], timeout=3000)
+                harness_args=["-kinds", kinds, "-salt", str(salt)], timeout=3000)
 
 
 def steps(case, impl, model):
@@ -81,3 +82,43 @@ ASSUMPTIONS = ["capabilities the local application puts into results are local s
                "fewer than 2^32-1 ids are allocated per table in one connection (idgen.next panics beyond; stated as the "
                "hypothesis work evs < 2^32-1 of the theorems)"]
 TECHNIQUE = "Coq proof (invariants over fold_left step for all event lists) + extracted-machine/implementation differential run"
+
+
+def agreed_crashes(pid, run_name):
+    """Histories on which implementation AND model crash / wedge in the same way: the comparison is
+    silent about them, so they are collected here (known findings that are not repaired)."""
+    import vcheck
+    d = os.path.join(vcheck.BUILD, "run", pid + "-" + run_name)
+    try:
+        cases = vcheck.read_lines(os.path.join(d, "cases.txt"))
+        impl = vcheck.read_lines(os.path.join(d, "impl.out"))
+        model = vcheck.read_lines(os.path.join(d, "model.out"))
+    except OSError:
+        return []
+    res = []
+    for c, i, m in zip(cases, impl, model):
+        if i == m and crashed(i):
+            evs, io, _ = steps(c, i, m)
+            ev = evs[len(io) - 1] if 0 < len(io) <= len(evs) else "end"
+            res.append(("agreed/event=%s/%s" % (ev[0] if ev != "end" else "end", kind_of(io[-1])), c, i))
+    return res
+
+
+def make_post(pid, run_name):
+    def post(res, stats, mismatches):
+        import vcheck
+        kf = [k for k in vcheck.known_findings() if k.get("property") == pid and k.get("status") == "known"]
+        groups = {}
+        for sig, c, i in agreed_crashes(pid, run_name):
+            groups.setdefault(sig, []).append((c, i))
+        for sig, ms in sorted(groups.items()):
+            matched = [k for k in kf if re.fullmatch(k["signature"], sig)]
+            if matched:
+                res.known.append("%s (%d cases this run): %s" % (sig, len(ms), matched[0].get("what", "")))
+                continue
+            ms.sort(key=lambda x: len(x[0]))
+            c, i = ms[0]
+            body = ("# property %s: implementation and model agree, and both crash / wedge (signature %s, %d cases)\n"
+                    "# implementation: %s\n# replay with: ./check %s --replay <this file>\n%s\n" % (pid, sig, len(ms), i[:2000], pid, c))
+            res.violation(vcheck.write_replay(pid, res.seed, re.sub(r"[^A-Za-z0-9]+", "_", sig)[:60], body))
+    return post
